@@ -43,6 +43,10 @@ Budget(proto, cc, nRetry) ==
 \* the fault scripts the binding must enumerate for an operation of N commands
 Scripts(N, bursts) == {[p |-> p, k |-> k, b |-> b, m |-> m] : p \in 1..N, k \in Kinds, b \in bursts, m \in Modes}
 
+\* bursts of mixed kinds: the first fault of kind k1, all later ones of kind k # k1 (the error that persisted - the one the
+\* TagCommandError must carry - is the one of the final attempt: DoFault records lastGive at the fault that exhausts the budget)
+MixedScripts(N) == {s \in {[p |-> p, k1 |-> k1, k |-> k] : p \in 1..N, k1 \in Kinds, k \in Kinds} : s.k1 # s.k}
+
 \* parameters of one run: [proto, nRetry, clean (Seq of hashes), cleanRet ([kind, errno, val]), doc (set of values)]
 StInit == [pos |-> 0, att |-> 0, cur |-> 0, cc |-> "-", ph |-> "idle", gave |-> 0, lastGive |-> "-", justGave |-> FALSE,
            ex |-> 0, fAfter |-> 0, dirty |-> FALSE, amb |-> FALSE, tgt |-> TRUE, viol |-> {}, ret |-> [kind |-> "-", errno |-> 0, val |-> "-"]]
